@@ -7,7 +7,7 @@ cd "$(dirname "$0")/.." || exit 2
 git -C $R diff --quiet || { echo "/repo not clean"; exit 2; }
 missed=0; n=0
 for d in ${@:-$(ls seeded)}; do
-  dir=seeded/$d; [ -f $dir/patch.diff ] || continue
+  dir=$PWD/seeded/$d; [ -f $dir/patch.diff ] || continue
   P=${d%%_*}
   if ! git -C $R apply --check $dir/patch.diff 2>/dev/null; then echo "$d: patch no longer applies (code changed since)"; continue; fi
   git -C $R apply $dir/patch.diff
